@@ -77,12 +77,39 @@ def union_prelude(t):
 
 
 _preluded = set()
+_siblings = set()
+
+
+def sibling_prelude(t):
+    """process history: before the object under test exists, the very classes it is made of have served a LARGER object (every
+    dynamic extent larger than any the value alphabets use), read at every index and written at every leaf.  Whatever a class
+    remembers about indices, places or sizes of an instance belongs to that instance."""
+    if t in _siblings or not xt.is_dyn(t):
+        return
+    _siblings.add(t)
+    try:
+        big = xt.gen(t, "alt", dynext=(5, 6, 5))
+        if not xt.py_expressible(t, big) or xt.layout_size(t, big) > 200000:
+            return
+        h = xt.construct(t, xt.to_py(t, big), _buffer=place.traced("np", 0))
+        xt.read(t, h)
+        from . import hand
+
+        for lp, lt, lv in xt.leaf_paths(t, big):
+            if lp and lt[0] == "S":
+                try:
+                    hand.assign(t, h, lp, lv)
+                except Exception:
+                    pass
+    except Exception:
+        pass  # (a larger object that cannot be built or read is C01's business)
 
 
 def build(t, v0, pname, hist, salt=0):
     """Construct the initial object and replay `hist` (without judging).  Returns State."""
     s = State()
     union_prelude(t)
+    sibling_prelude(t)
     o = cons.execute(t, v0, "py" if xt.py_expressible(t, v0) else "nd", pname, salt)
     if o.error is not None:
         raise o.error
